@@ -286,6 +286,26 @@ def rule_r4(facts, rep, rid="C07-R4"):
     else:
         rep.violation(rid, key, "the continuation indent of ordered-list items is not computed from the printed marker's width: for some item numbers "
                       "the item's later lines fall out of the item", f.loc)
+    # marker and text are separated by a literal blank in every line template (`{} {}`): with `{}{}` a marker as wide as the column glues to the text (`100.step`)
+    for nm in ("model::graph::left_pad_and_prefix_num", "model::graph::left_pad_and_prefix"):
+        g = facts.fn(nm)
+        rep.saw_fn(g)
+        tmpl = []
+        for x in fb.walk(g.body):
+            if x.get("k") == "mcall" and x["name"] == "push_str":
+                lits = [y for y in fb.walk(x) if y.get("k") == "lit" and str(y.get("v", "")).startswith("bs:")]
+                uses_line = any(y.get("k") == "path" and y.get("res") == "local" and (y.get("ty") or "").replace("&", "") == "str" for y in fb.walk(x))
+                if lits and uses_line:
+                    tmpl.append((x, str(lits[0]["v"])[3:]))
+        key = g.def_ + "|marker-text-separator"
+        bad = [(x, t) for x, t in tmpl if " " not in t]
+        if not tmpl:
+            rep.violation(rid, key, "%s no longer formats `<marker> <line>` lines" % nm, g.loc)
+        elif bad:
+            rep.violation(rid, key, "a line template of %s has no literal blank between the marker and the text: as soon as the marker fills its column (item 100.) it is glued to the "
+                          "text and the line is no longer a list item" % fb.last_seg(nm), loc(g, bad[0][0]))
+        else:
+            rep.ok(rid, key, "%d line template(s), each with a literal blank after the marker / pad" % len(tmpl), g.loc)
     gb = facts.fn("GraphBlock::to_markdown")
     for vs, arm in A.arms_of(A.matches_on(gb, "GraphBlock")[0]):
         for v in vs:
